@@ -29,6 +29,8 @@ def load_module(p, pid, wd, src=None):
     spec = importlib.util.spec_from_file_location(name, path)
     m = importlib.util.module_from_spec(spec)
     spec.loader.exec_module(m)
+    from malt.lang import directives
+    m.set_loop_options = directives.set_loop_options      # resolved statically by the directives converter
     return m
 
 
@@ -54,7 +56,8 @@ def world(decisions, module):
             api.autograph_artifact(getattr(run, nm))     # marks the underlying function objects once
         _marked = True
     for k, v in run.ns().items():
-        setattr(module, k, v)
+        if k != 'set_loop_options':
+            setattr(module, k, v)
     return run
 
 
@@ -191,8 +194,13 @@ def _replay_chunk(args):
                         c['opt'] = o['name']
                         opcalls[k] = c
                 res['counts'] = dict(recorder.counts)
-                if 'ulog' in rec and agree(rec, res) is None and not embeds(rec['ulog'], recorder.events):
-                    routing.append(dict(pid=pid, dec=rec['dec'], opt=o['name'], expected=rec['ulog'],
+                # when an exception escapes, only what happened before the raise is guaranteed (finally blocks that run
+                # while it propagates are outside the guarantee): compare the events issued before the raise point
+                exp_events = rec.get('ulog', [])
+                if rec['out'][0] == 'exc':
+                    exp_events = [e for e in exp_events if e[1] < rec['xlog']]
+                if 'ulog' in rec and agree(rec, res) is None and not embeds(exp_events, recorder.events):
+                    routing.append(dict(pid=pid, dec=rec['dec'], opt=o['name'], expected=exp_events,
                                         observed=[list(e) for e in recorder.events]))
             why = agree(rec, res)
             if why:
